@@ -50,10 +50,11 @@ func splitmix(x *uint64) uint64 {
 
 // Mix hashes integers into one seed (used to derive per-run seeds).
 func Mix(vs ...uint64) uint64 {
-	var st uint64 = 0x1234567887654321
-	var out uint64
+	var out uint64 = 0x1234567887654321
 	for _, v := range vs {
-		st ^= v
+		// chain through the full finaliser so that small differences in
+		// several inputs cannot cancel
+		st := out ^ (v * 0xD6E8FEB86659FD93)
 		out = splitmix(&st)
 	}
 	return out
